@@ -27,6 +27,7 @@ OK_EXIT = {"none", "closed", "returned", "slot"}
 
 
 class OwnershipAnalysis(RuleAnalysis):
+    inline_helpers = True  # a step of the attempt extracted into a private helper (namesake arguments) is read in place
     tokens = ("OSError", "Exception", CANCELLED, "BaseException")
 
     def __init__(self, engine, var: str, is_acquire: Callable[[list[str]], bool], slot: str | None = None,
@@ -123,7 +124,7 @@ class OwnershipAnalysis(RuleAnalysis):
                 if state == "owned":
                     return [(f"err:{self.var} re-bound while owned", slot)]
                 return [fact]
-            if self.slot and isinstance(tgt, ast.Name) and tgt.id == self.slot:
+            if self.slot and is_name(tgt, self.slot):
                 if is_name(node.value, self.var) and state == "owned":
                     if slot != "empty":
                         return [("err:winner slot written without a dominating emptiness test (a second finisher would overwrite and leak the first socket)", slot)]
